@@ -540,6 +540,17 @@ func (c *evalCtx) callExpr(n *ast.CallExpr) Value {
 			pats = append(pats, scT(pv))
 		}
 		rng := And(Le(lo, bv), Lt(bv, hi))
+		// Quantify over the absolute array index (p = X + k) instead of the relative one, so that
+		// array reads have the bare bound variable as index and E-matching sees every ground read.
+		if shift := indexShift(body, bv.Name); shift != nil && len(pats) == 0 {
+			pv := Sym(fresh(id.Name+".abs"), SInt)
+			k := Sub(pv, shift)
+			cc2 := c.with(map[string]Value{id.Name: Sc{k}})
+			cc2.facts = false
+			body = cc2.term(arg(3))
+			rng = And(Le(lo, k), Lt(k, hi))
+			bv = pv
+		}
 		if fname == "forall" {
 			return Sc{Forall([]*Term{bv}, Implies(rng, body), pats...)}
 		}
@@ -555,6 +566,23 @@ func (c *evalCtx) callExpr(n *ast.CallExpr) Value {
 			pats = append(pats, scT(cc.rv(cc.eval(pe))))
 		}
 		return Sc{Forall([]*Term{bv}, body, pats...)}
+	case "fieldslice":
+		// fieldslice(a, F): the sequence a[0].F, a[1].F, ... of a scalar field of a slice of structs, as an abstract int sequence
+		a, ok := c.rv(c.eval(arg(0))).(Sl)
+		if !ok {
+			c.errf("fieldslice of non-slice")
+		}
+		fname := arg(1).(*ast.Ident).Name
+		_, ft, ok := fieldIndex(a.Elem, fname)
+		if !ok {
+			c.errf("fieldslice: no field %s", fname)
+		}
+		srt, _, isSc := scalarSort(ft)
+		if !isSc || srt != SInt {
+			c.errf("fieldslice: field %s is not an integer scalar", fname)
+		}
+		fam := c.heap.family(familyName(a.Elem, fname), SInt)
+		return Sl{Arr: Select(fam, a.R), O: a.O, L: a.L, C: a.L, R: Int(-2), Elem: ft}
 	case "sameslice":
 		a, b := c.rv(c.eval(arg(0))).(Sl), c.rv(c.eval(arg(1))).(Sl)
 		return Sc{And(Eq(a.R, b.R), Eq(a.O, b.O), Eq(a.L, b.L), Eq(a.C, b.C))}
